@@ -316,3 +316,57 @@ Definition const_spacing_b (u : unit_) (t : list cell) : bool :=
 Definition gcd_spec_b (gaps : list Z) (g : Z) : bool :=
   (0 <=? g) && forallb (fun x => if g =? 0 then x =? 0 else x mod g =? 0) gaps
   && (fold_right Z.gcd 0 gaps =? g).
+
+(* ------------------------------------------------------------------ descriptions of the decision
+   tokens that translate/t_acc.py regenerates from the source on every run (GenAcc.v) *)
+Inductive operand := PrevStart | PrevEnd | NextStart | NextEnd.
+Inductive cmpop := CGe | CGt | CLe | CLt | CEq | CNe.
+Record cmp_desc := mkCmp { c_left : operand; c_op : cmpop; c_right : operand }.
+Definition eval_operand (o : operand) (p n : Z * Z) : Z :=
+  match o with PrevStart => fst p | PrevEnd => snd p | NextStart => fst n | NextEnd => snd n end.
+Definition eval_cmpop (o : cmpop) (a b : Z) : bool :=
+  match o with
+  | CGe => a >=? b | CGt => a >? b | CLe => a <=? b | CLt => a <? b | CEq => a =? b | CNe => negb (a =? b)
+  end.
+Definition eval_cmp (d : cmp_desc) (p n : Z * Z) : bool :=
+  eval_cmpop (c_op d) (eval_operand (c_left d) p n) (eval_operand (c_right d) p n).
+(* the two spellings of `prev_end >= next_start` *)
+Definition cmp_spec_ok (d : cmp_desc) : bool :=
+  match d with
+  | mkCmp PrevEnd CGe NextStart | mkCmp NextStart CLe PrevEnd => true
+  | _ => false
+  end.
+
+Inductive redop := OpGcd | OpMin | OpMax.
+Record red_desc := mkRed { r_op : redop; r_single : nat; r_seed_a : nat; r_seed_b : nat; r_from : nat }.
+Definition eval_redop (o : redop) : Z -> Z -> Z :=
+  match o with OpGcd => Z.gcd | OpMin => Z.min | OpMax => Z.max end.
+Definition multi_gcd_gen (d : red_desc) (xs : list Z) : result Z :=
+  let u := sort_u Z.ltb xs in
+  match u with
+  | [] => Err IndexError
+  | [_] => match nth_error u (r_single d) with Some x => Ok x | None => Err IndexError end
+  | _ => match nth_error u (r_seed_a d), nth_error u (r_seed_b d) with
+         | Some a, Some b => Ok (fold_left (eval_redop (r_op d)) (skipn (r_from d) u) (eval_redop (r_op d) a b))
+         | _, _ => Err IndexError
+         end
+  end.
+Definition red_spec_ok (d : red_desc) : bool :=
+  match d with
+  | mkRed OpGcd O O (S O) (S (S O)) | mkRed OpGcd O (S O) O (S (S O)) => true
+  | _ => false
+  end.
+
+Inductive binop := BSub | BAdd.
+Inductive side := After | Before.
+Record diff_d := mkDiff { d_op : binop; d_left : side }.
+Definition diff_spec_ok (d : diff_d) : bool :=
+  match d with mkDiff BSub After => true | _ => false end.
+Definition eval_diff (d : diff_d) (before after : Z) : Z :=
+  let '(l, r) := match d_left d with After => (after, before) | Before => (before, after) end in
+  match d_op d with BSub => l - r | BAdd => l + r end.
+Fixpoint diffs_gen (d : diff_d) (xs : list Z) : list Z :=
+  match xs with
+  | a :: (b :: _) as r => eval_diff d a b :: diffs_gen d r
+  | _ => []
+  end.
